@@ -29,10 +29,7 @@ def sepA (t : MeshTol) : Nat := t.atol / 2
 def sepB (t : MeshTol) : Nat := 4 * t.atol
 
 /-- right-hand side of `np.isclose` for `|b| = m` -/
-def thrIs (t : MeshTol) (m : Nat) : Option Nat :=
-  match rndMag f64 (t.rtol * m) UNIT with
-  | none => none
-  | some p => rndMag f64 (t.atol + p) 0
+def thrIs (t : MeshTol) (m : Nat) : Option Nat := iscloseThr t.atol t.rtol m
 
 /-- right-hand side of `fuzzy_equal` for `max(|a|,|b|) = m` -/
 def thrFz (t : MeshTol) (m : Nat) : Option Nat := threshold f64 m t.rtol true t.atol true
